@@ -231,6 +231,10 @@ pub struct FnInfo {
     pub params: Vec<(String, Ty)>,
     /// parallel to `params`: the parameter is `&mut T` (its final value is part of the result)
     pub mut_params: Vec<bool>,
+    /// macro parameters the definition depends on (leading arguments)
+    pub mvars: Vec<String>,
+    /// the (virtual) file of the definition
+    pub file: String,
     pub ret: Ty,
     /// the body contains a loop (or calls a function that does): leading `fuel : nat` parameter, result in `option`
     pub fuel: bool,
@@ -264,6 +268,19 @@ pub struct ConstInfo {
     pub key: String,
     pub coq: String,
     pub ty: Ty,
+    /// macro parameters the definition depends on (leading arguments)
+    pub mvars: Vec<String>,
+    pub file: String,
+}
+
+/// a `$name` parameter of a macro_rules! arm translated as a template: the generated definitions that mention it
+/// (directly or through another definition of the template) take it as a leading argument
+#[derive(Clone, Debug)]
+pub struct MVar {
+    pub name: String,
+    pub ty: Ty,
+    /// Coq type of the binder when it is not a value of the subset (the table row of an abstract type)
+    pub coq_ty: Option<String>,
 }
 
 #[derive(Clone, Debug)]
@@ -272,11 +289,19 @@ pub struct ExternInfo {
     pub coq_ty: String,
     /// method name -> (return type, Coq function applied to the receiver)
     pub methods: Vec<(String, Ty, String)>,
+    /// for an abstract type of a macro template: the macro parameter (a table row) every member is applied to first
+    pub row: Option<String>,
+    /// associated constants: name -> (type, Coq function)
+    pub consts: Vec<(String, Ty, String)>,
+    /// associated functions: name -> (argument types, return type, Coq function)
+    pub statics: Vec<(String, Vec<Ty>, Ty, String)>,
 }
 
 #[derive(Default)]
 pub struct Tables {
     pub externs: BTreeMap<String, ExternInfo>,
+    /// macro parameters in declaration order
+    pub mvars: Vec<MVar>,
     /// type of an associated constant of a generic type parameter, by constant name
     pub assoc_tys: BTreeMap<String, Ty>,
     pub adts: BTreeMap<String, Adt>,
